@@ -144,27 +144,31 @@ class Machine(object):
                 ctx.fault("net.drop", lost)
                 if op[1] != sorted(op[1]):
                     ctx.fault("net.reorder")
-                try:
-                    got = Shamir.combine(sub, ssss)
-                    err = None
-                except ValueError as e:
-                    got, err = None, e
-                except Exception as e:
-                    ctx.violate("shamir/combine/exception:%s" % type(e).__name__, "combine raised %r" % e, observed=repr(e),
-                                expected="ValueError" if dup else "secret")
-                ctx.obs(op[0], err is None)
-                if dup:
-                    ctx.fault("net.dup")
-                    if err is None:
-                        ctx.violate("shamir/combine/duplicate-accepted", "combine accepted a duplicated share index",
-                                    observed=got.hex(), expected="ValueError")
-                    continue
-                if err is not None:
-                    ctx.violate("shamir/combine/refused", "combine refused k distinct shares: %s" % err, observed=repr(err), expected=secret.hex())
-                if got != secret:
-                    ctx.violate("shamir/combine/wrong-secret",
-                                "k=%d distinct shares (indices %s, ssss=%s) did not recombine to the secret" % (k, op[1], ssss),
-                                observed=got.hex(), expected=secret.hex())
+                # the combiner retries: the same delivery is offered twice and judged twice (a refusal or a result that
+                # leaves something behind shows in the repetition)
+                for attempt in (0, 1):
+                    again = " (the same call repeated)" if attempt else ""
+                    try:
+                        got = Shamir.combine(list(sub), ssss)
+                        err = None
+                    except ValueError as e:
+                        got, err = None, e
+                    except Exception as e:
+                        ctx.violate("shamir/combine/exception:%s" % type(e).__name__, "combine raised %r%s" % (e, again), observed=repr(e),
+                                    expected="ValueError" if dup else "secret")
+                    ctx.obs(op[0], err is None)
+                    if dup:
+                        ctx.fault("net.dup")
+                        if err is None:
+                            ctx.violate("shamir/combine/duplicate-accepted", "combine accepted a duplicated share index%s" % again,
+                                        observed=got.hex(), expected="ValueError")
+                        continue
+                    if err is not None:
+                        ctx.violate("shamir/combine/refused", "combine refused k distinct shares%s: %s" % (again, err), observed=repr(err), expected=secret.hex())
+                    if got != secret:
+                        ctx.violate("shamir/combine/wrong-secret",
+                                    "k=%d distinct shares (indices %s, ssss=%s) did not recombine to the secret%s" % (k, op[1], ssss, again),
+                                    observed=got.hex(), expected=secret.hex())
             elif op[0] == "combine_dup_corrupt":
                 # the same holder delivers twice, the second copy damaged in transit: same index, different value
                 sub = [(i, by_idx[i]) for i in op[1] if i in by_idx]
@@ -175,15 +179,16 @@ class Machine(object):
                 v[op[4] // 8] ^= 1 << (op[4] % 8)
                 sub[op[3]] = (i_src, bytes(v))
                 ctx.fault("net.dup_corrupt")
-                try:
-                    got = Shamir.combine(sub, ssss)
-                except ValueError:
-                    continue
-                except Exception as e:
-                    ctx.violate("shamir/combine/exception:%s" % type(e).__name__, "combine raised %r" % e, observed=repr(e), expected="ValueError")
-                ctx.violate("shamir/combine/duplicate-index-accepted",
-                            "combine accepted two shares with the same index (%d) and different values" % i_src,
-                            observed=got.hex(), expected="ValueError")
+                for attempt in (0, 1):
+                    try:
+                        got = Shamir.combine(list(sub), ssss)
+                    except ValueError:
+                        continue
+                    except Exception as e:
+                        ctx.violate("shamir/combine/exception:%s" % type(e).__name__, "combine raised %r" % e, observed=repr(e), expected="ValueError")
+                    ctx.violate("shamir/combine/duplicate-index-accepted",
+                                "combine accepted two shares with the same index (%d) and different values%s" % (i_src, " (the same call repeated)" if attempt else ""),
+                                observed=got.hex(), expected="ValueError")
             elif op[0] == "field":
                 vals = [y for _, y in pts[:4]] + coeffs[:3] + [0, 1, 2, 0x87, 1 << 127, G.MASK, (1 << 127) | 0x87,
                                                                 int.from_bytes(data(op[1], 16), "big")]
